@@ -2,7 +2,7 @@ SPEC = {
     "id": "C09",
     "props_module": "NDB.Props.C09",
     "corr_modules": ["NDB.Corr.C09"],
-    "theorems": ["C09_serializable", "C09_history_complete", "C09_no_lost_increment", "C09_old_order_refuted"],
+    "theorems": ["C09_serializable", "C09_history_complete", "C09_no_lost_increment", "C09_old_order_refuted", "C09_early_unlock_refuted"],
     "allowed_axioms": [],
     "harness_pkg": "hx_conc",
     "harness_bin": "c09",
@@ -12,10 +12,15 @@ SPEC = {
     "trusted_base": [
         "Coq 8.16.1 kernel + vm_compute; coqchk re-check in the thorough tier",
         "axioms: none (Print Assumptions: Closed under the global context for all four theorems)",
-        "hand-written model Conc/Sched.v + Conc/AutoCommit.v: one statement = four atomic steps (writer lock, read snapshot, "
-        "compute-from-snapshot + commit, unlock) over one shared cell; tied to nervusdb-capi execute_write_count by the "
+        "hand-written model Conc/Sched.v + Conc/AutoCommit.v: one statement = five atomic steps (writer lock, read snapshot, "
+        "compute-from-snapshot + WAL, publication of the run, unlock) over one shared cell; tied to nervusdb-capi execute_write_count by the "
         "correspondence: observed order of the four events of a statement at the schedule points = the model's program order, "
         "and for every driven schedule the event trace, the completion flag and the value read back = the model's run",
+        "the position of the UNLOCK in the program order is not read off a schedule point but probed: with the first writer parked at each "
+        "of capi.write.locked, capi.write.snapshot, commit.logged, commit.idmap, commit.node_labels, commit.run a second writer is "
+        "released towards begin_write and must stay blocked (and both increments must be present afterwards); the order found this way is "
+        "what Corr/C09.v compares with the model's [lock; snapshot; log; publish; unlock] (C09_early_unlock_refuted: with the unlock "
+        "before the publication an increment is lost)",
         "schedule points nervusdb_storage::verif::point (commit 3c4c040, --cfg nervusdb_verif) and the baton scheduler of "
         "harness/hx_conc: one thread runs at a time between points; scheduling below the points (inside begin_write, snapshot, "
         "commit) is not explored",
